@@ -2,7 +2,7 @@
 // forEachNodePreorder (tree_algo.hpp; its std::function parameter becomes a template parameter, the two capturing lambdas become named
 // function objects), over BlockIndex shells that carry the real status members (slices shared with unit blockindex) and pnext as a
 // small iterable set. The tree object is a shell: activeChain_.contains() answers from a flag, setState() records the call, tips_ is a
-// membership array, tryAddTip()/updateTips()/signals are counted.
+// membership array under the real tryAddTip (with the real isValidTip / canBeATip), updateTips()/signals are counted.
 #include <cstdint>
 #include <veriblock/pop/assert.hpp>
 #include <veriblock/pop/validation_state.hpp>
@@ -14,9 +14,17 @@ struct PNextSet {   // std::set<BlockIndex*>: iteration only (at most NB-1 child
   BlockIndex* d_[NB]; size_t n_;
   PNextSet() : n_(0) {}
   size_t size() const { return n_; }
+  bool empty() const { return n_ == 0; }
   BlockIndex* at_(size_t i) const { return const_cast<PNextSet*>(this)->d_[i]; }
+  bool none_of_canBeATip() const;   // std::none_of(begin(), end(), [](BlockIndex* index) { return index->canBeATip(); })
 };
-struct AddonShell { };
+#ifndef TIPLEVEL
+#define TIPLEVEL 1
+#endif
+struct AddonShell {
+  // alt_block_addon.hpp: BLOCK_CONNECTED; btc/vbk_block_addon.hpp: BLOCK_VALID_TREE  (harness parameter TIPLEVEL)
+  static BlockStateStatus validTipLevel_f() { return (BlockStateStatus)TIPLEVEL; }
+};
 struct BlockIndex : public AddonShell {
   typedef int32_t height_t;
   BlockIndex* pprev;
@@ -35,7 +43,15 @@ struct BlockIndex : public AddonShell {
 #include "slices/setFlag.inc"
 #include "slices/unsetFlag.inc"
 #include "slices/hasFlags.inc"
+#include "slices/isTip.inc"
+#include "slices/isDeleted.inc"
+#include "slices/canBeATip.inc"
+#include "slices/isValidTip.inc"
 };
+inline bool PNextSet::none_of_canBeATip() const {
+  for (size_t i = 0; i < NB; i++) if (i < n_ && const_cast<PNextSet*>(this)->d_[i]->canBeATip()) return false;
+  return true;
+}
 #include "slices/isValidInvalidationReason.inc"
 typedef BlockIndex index_t;
 struct BaseBlockTree;
@@ -43,7 +59,16 @@ struct lam_invalidate;
 struct lam_revalidate;
 #include "slices/forEachNodePreorder.inc"
 struct ActiveChainShell { bool answer_[NB]; bool contains(const index_t* p) const { return p != 0 && const_cast<ActiveChainShell*>(this)->answer_[p->id_]; } };
-struct TipsShell { bool in_[NB]; void erase(index_t* p) { in_[p->id_] = false; } };
+// std::unordered_set<index_t*> tips_: membership array; an iterator is the block id (-1 = end())
+struct TipsShell {
+  typedef int iterator;
+  bool in_[NB];
+  void erase(index_t* p) { in_[p->id_] = false; }
+  void erase(iterator it) { __CPROVER_assert(it >= 0 && it < NB && in_[it], "unordered_set::erase(iterator): iterator dereferenceable"); in_[it] = false; }
+  iterator find(index_t* p) const { return (p != 0 && const_cast<TipsShell*>(this)->in_[p->id_]) ? p->id_ : -1; }
+  iterator end() const { return -1; }
+  void insert(index_t* p) { in_[p->id_] = true; }
+};
 struct SignalShell { unsigned n_; void emit(const index_t&) { n_++; } };
 struct BaseBlockTree {
   typedef index_t index_t_;
@@ -51,9 +76,9 @@ struct BaseBlockTree {
   TipsShell tips_;
   SignalShell onBlockValidityChanged;
   int setState_to_;        // ghost: id of the block setState() was asked to move the tip to (-1: not called)
-  unsigned tryAddTip_n_, updateTips_n_;
+  unsigned updateTips_n_;
   bool setState(index_t& to, ValidationState&) { setState_to_ = to.id_; return true; }
-  void tryAddTip(index_t* p) { VBK_ASSERT(p); tryAddTip_n_++; }
+#include "slices/tryAddTip.inc"
   void updateTips() { updateTips_n_++; }
 #include "slices/doInvalidate.inc"
 #include "slices/doReValidate.inc"
